@@ -304,9 +304,11 @@ pub fn ribbon_case(data: &[u8]) -> ribbon::RibbonCase {
             },
             alt_key: r.u32(),
             pattern: (r.u8() % 3 == 0) as u8,
+            gap_edge: r.u8() % 4 == 0,
         });
     }
-    ribbon::RibbonCase { rate_idx, softpot_idx, dropper_frac, pullup_factor, segs }
+    let edge_ulps = if r.u8() % 3 == 0 { Some((r.u8() % 7) as i8 - 3) } else { None };
+    ribbon::RibbonCase { rate_idx, softpot_idx, dropper_frac, pullup_factor, segs, edge_ulps }
 }
 
 pub fn stream_case(data: &[u8]) -> midi::StreamCase {
